@@ -413,7 +413,38 @@ RULES = {
 }
 
 
-DOTALL = ("inner_macro_def", "mismatch_debug", "offered_let")
+DOTALL = ["inner_macro_def", "mismatch_debug", "offered_let"]
+JSON_DOTALL = DOTALL_EXTRA = DOTALL   # (one list; json targets add to it through register_json_rules)
+
+
+def register_json_rules(d, origin):
+    """One reader for the json dialects that four builders introduced independently in round 9 (kept compatible with all of
+    them): `"rules": {name: [regex, replacement, why, count?, "dotall"?]}` (count 0 or null = at least once; a name already
+    defined differently is an error; a regex may also start with `(?s)`), `"rules_dotall": [names]`,
+    `"normalise": {"Impl::fn" | "::fn" | "fn": [rule names]}` (json has no tuple keys; a free function has impl None)."""
+    dot_names = set(d.pop("rules_dotall", None) or [])
+    all_dot = ".b1315." in str(origin)      # b1315's dialect: every rule of a json file is applied with re.S
+    for rn, rv in (d.pop("rules", None) or {}).items():
+        rv = list(rv)
+        dot = "dotall" in rv[3:] or rn in dot_names or all_dot
+        rv = [x for x in rv if x != "dotall"]
+        if len(rv) > 3 and rv[3] == 0: rv[3] = None
+        rv = tuple(rv)
+        if rn in RULES and tuple(RULES[rn]) != rv:
+            raise ExtractError("x_fn: %s: normalisation rule %r is already defined differently" % (origin, rn))
+        RULES[rn] = rv
+        if dot and rn not in DOTALL: DOTALL.append(rn)
+    norm = d.get("normalise")
+    if isinstance(norm, dict):
+        out = {}
+        for k, v in norm.items():
+            if isinstance(k, str):
+                impl, _, fn = k.rpartition("::")
+                k = (impl or None, fn)
+            elif isinstance(k, tuple) and k[0] == "":
+                k = (None, k[1])
+            out[k] = list(v)
+        d["normalise"] = out
 
 
 def make_rewriter(rel, plan):
@@ -450,7 +481,7 @@ def make_rewriter(rel, plan):
                 def sub(m):
                     out = m.expand(repl)
                     return out + "\n" * (m.group(0).count("\n") - out.count("\n"))
-                seg, n = re.subn(rx, sub, seg, flags=re.S if rn in DOTALL else 0)
+                seg, n = re.subn(rx, sub, seg, flags=re.S if (rn in DOTALL or rn in DOTALL_EXTRA) else 0)
                 if (want is None and n < 1) or (want is not None and n != want):
                     bad = "normalisation rule %r applies %d times in %s (declared: %s)" % (rn, n, name, want or "at least once"); break
                 log.append(("%s in %s: %s" % (rn, name, RULES[rn][2]), n))
@@ -475,6 +506,7 @@ def load_targets():
     def add(d, origin):
         d = dict(d)
         d["fns"] = [tuple(x) for x in d.get("fns", [])]
+        register_json_rules(d, origin)
         if d["area"] not in by:
             d.setdefault("consts", []); d.setdefault("structs", []); d.setdefault("externals", {}); d.setdefault("foreign_structs", {})
             d["consts"], d["structs"] = list(d["consts"]), list(d["structs"])
@@ -493,6 +525,9 @@ def load_targets():
         t["foreign_structs"].update(d.get("foreign_structs", {}))
         t["tuple_structs"] += [n for n in d.get("tuple_structs", []) if n not in t["tuple_structs"]]
         t["fns_from"] += [n for n in d.get("fns_from", []) if n not in t["fns_from"]]
+        if d.get("normalise"): t.setdefault("normalise", {}).update(d["normalise"])
+        if d.get("views"):
+            t["views"] = (t.get("views") or "") + "\n" + d["views"]
     for t in TARGETS: add(t, "TARGETS")
     for path in sorted(glob.glob(os.path.join(HERE, "fn_targets", "*.json"))):
         try:
@@ -500,6 +535,7 @@ def load_targets():
         except ValueError as e:
             raise ExtractError("x_fn: %s: %s" % (path, e))
         for d in (data if isinstance(data, list) else [data]):
+            d = dict(d)
             add(d, os.path.basename(path))
     return tgs
 
@@ -511,14 +547,8 @@ def _json_plan(tg):
     """json form of a target block (round 9, b0103): `"normalise": {"Impl::fn": [rule names]}`, `"rules": {name: [regex,
     replacement, what is trusted, count?]}` (a regex that must see several lines starts with `(?s)`; a rule name must not
     clash with a rule of RULES unless it is the same rule), `"arms"`: see translate/fn_arms.py"""
-    for rn, r in (tg.get("rules") or {}).items():
-        r = tuple(r)
-        if rn in RULES and tuple(RULES[rn]) != r:
-            raise ExtractError("x_fn: area %s: normalisation rule %r is already defined differently" % (tg["area"], rn))
-        RULES[rn] = r
+    register_json_rules(tg, "area %s" % tg["area"])
     norm = tg.get("normalise")
-    if norm:
-        norm = {(((k.rpartition("::")[0] or None), k.rpartition("::")[2]) if isinstance(k, str) else k): v for k, v in norm.items()}
     return norm
 
 
@@ -532,6 +562,7 @@ def unit_for(repo, tg):
              rewrite=fn_arms.compose(fn_arms.make_arm_splitter(tg["rel"], tg["arms"]) if tg.get("arms") else None,
                                      make_rewriter(tg["rel"], norm) if norm else None))
     u.log_macros = tuple(tg.get("log_macros", ()))     # declared logging-only macros of the file
+    u.reindent_closures = bool(tg.get("reindent_closures"))    # (b0809) see emit_m in rs2lean.py
     return u
 
 
@@ -549,8 +580,11 @@ def census(repo, tgs=None, units=None):
                 props_of.setdefault(f, []).append(d["id"])
     tied = {}
     for tg in tgs:
+        tu = (units or {}).get(tg["area"])
         for tup in tg["fns"]:
-            tied.setdefault((tg["rel"], tup[0] or None, tup[1]), []).append((tg["area"], tup[2], tup[3]))
+            # (b0507) a target taken from a `fns_from` file of its area counts for the file that defines it
+            src = getattr(tu, "fn_src", {}).get((tup[0] or None, tup[1])) if tu is not None else None
+            tied.setdefault((src.rel if src is not None else tg["rel"], tup[0] or None, tup[1]), []).append((tg["area"], tup[2], tup[3]))
     out = {}
     for rel in files:
         if not os.path.exists(os.path.join(repo, rel)):
